@@ -182,6 +182,10 @@ func c03Render(events []int, names []string) (string, bool) {
 				b.WriteString("h = f;\n") // the function value escapes its scope
 			case 6:
 				b.WriteString("h(" + fresh() + ");\n")
+			case 7:
+				// a for header declaring several variables with one declaration list
+				b.WriteString(K["for"] + " (" + K["var"] + " " + names[0] + " = " + fresh() + ", " + names[1] + " = " + fresh() + "; " + True() + "; ) {\n")
+				stack = append(stack, "loop")
 			}
 		}
 	}
@@ -195,7 +199,7 @@ func c03Run(c *Ctx) {
 	// the Bangla name ends in precomposed U+09DF, which NFC rewrites: bindings
 	// are keyed by spelling, so every operation must treat it consistently
 	names := []string{"ক\u09df", "a"}
-	nEv := 4*len(names) + 7
+	nEv := 4*len(names) + 8
 	maxLen := c.N(5, 6)
 	ev := make([]int, 0, maxLen)
 	var rec func()
@@ -203,7 +207,7 @@ func c03Run(c *Ctx) {
 		if len(ev) > 0 {
 			// histories ending in an opener say nothing new over their prefix
 			last := ev[len(ev)-1] - 4*len(names)
-			if !(last >= 0 && last <= 2) {
+			if !((last >= 0 && last <= 2) || last == 7) {
 				if src, ok := c03Render(ev, names); ok && c.Mine() {
 					c03Judge(c, &Case{Gen: fmt.Sprintf("histories-len%d", len(ev)), Src: src})
 				}
@@ -218,7 +222,7 @@ func c03Run(c *Ctx) {
 				open := 0
 				for _, x := range ev {
 					k := x - 4*len(names)
-					if k >= 0 && k <= 2 {
+					if (k >= 0 && k <= 2) || k == 7 {
 						open++
 					} else if k == 3 {
 						open--
@@ -233,7 +237,7 @@ func c03Run(c *Ctx) {
 				var st []int
 				for _, x := range ev {
 					k := x - 4*len(names)
-					if k >= 0 && k <= 2 {
+					if (k >= 0 && k <= 2) || k == 7 {
 						st = append(st, k)
 					} else if k == 3 && len(st) > 0 {
 						st = st[:len(st)-1]
@@ -297,6 +301,10 @@ func c03Handwritten() []string {
 		// for header scope shared by init/cond/incr/body; loop variable not visible after
 		Lines(For(Var("i", "0"), "i < 2", "i = i + 1", "{ "+Print("i")+" }"), For(Var("i", "5"), "i < 6", "i = i + 1", "{ "+Print("i")+" }"), Print("i")),
 		Lines(Var("i", "7"), For(Var("i", "0"), "i < 2", "i = i + 1", "{ "+Var("i", "50")+" "+Print("i")+" }"), Print("i")),
+		// a for header may declare several variables: they live in the loop's own scope
+		Lines(Var("i", "100"), Var("n", "200"), For(K["var"]+" i = 0, n = 2;", "i < n", "i = i + 1", "{ "+Print("i + n")+" }"), Print("i"), Print("n")),
+		Lines(For(K["var"]+" i = 0, n = 2;", "i < n", "i = i + 1", "{ "+Print("i")+" }"), For(K["var"]+" i = 5, n = 6;", "i < n", "i = i + 1", "{ "+Print("i")+" }"), Print("n")),
+		Lines(For(K["var"]+" a = 1, b = 2, c;", "a < 2", "a = a + 1", "{ "+Print("c")+" "+Var("a", "9")+" "+Print("a + b")+" }"), Print("b")),
 		// redeclaration in the same scope, undefined read, undefined assignment
 		Lines(Var("a", "1"), Print("a"), Var("a", "2"), Print("a")),
 		Lines(Print("1"), Print("q")), Lines(Print("1"), "q = 2;", Print("3")),
@@ -307,6 +315,10 @@ func c03Handwritten() []string {
 		// parameters shadow outer names, including built-in names
 		Lines(Var("a", "1"), Fun("f", "a", " a = a + 1; "+Print("a")+" "), "f(10);", Print("a")),
 		Lines(Fun("f", B["len"], " "+Print(B["len"])+" "), "f(3);", Print(BI("len", "[1,2]"))),
+		// a parameter named like a built-in shadows it for calls too, not only for reads
+		Lines(Fun("f", B["len"], " "+Print(B["len"]+"(10)")+" "), Fun("sq", "v", " "+Ret("v * v")+" "), "f(sq);", Print(BI("len", "[1]"))),
+		Lines(Fun("f", B["len"], " "+Print(B["len"])+" "+Print(B["len"]+"([1, 2])")+" "), Print(`"b"`), "f(3);"),
+		Lines(Fun("outer", B["max"], " "+Fun("inner", "", " { "+Ret(B["max"]+"(1, 2)")+" } ")+" "+Ret("inner()")+" "), Fun("pick", "a, b", " "+Ret("a")+" "), Print("outer(pick)"), Print(BI("max", "1", "2"))),
 		// nested function scopes, then globals
 		Lines(Var("a", "1"), Fun("f", "", " "+Var("b", "2")+" "+Fun("g", "", " "+Var("c", "3")+" "+Print("a + b + c")+" a = a + 1; b = b + 1; ")+" g(); g(); "+Print("b")+" "), "f();", Print("a")),
 		// declaration initialiser sees the outer binding of the same name
@@ -329,7 +341,7 @@ func c03Handwritten() []string {
 func init() {
 	register(&CheckDef{
 		ID:   "C03",
-		Rule: "programs: every balanced history of length <=5 (quick) / <=6 (thorough) over 13 events {declare n = fresh, declare n, assign n, read n} x 2 colliding names + {open block, open for-header declaring the name, open function taking the name as parameter, close, call f}, each assigned value a unique integer; hand-written programs for every clause of the statement; seeded random larger programs (<=40 statements, depth <=3, names from a 3-name pool, closures, loops, planted faults). Each execution of the real interpreter (with scope hooks on) is compared with refborno's scope model on stdout, first diagnostic (category, name, line) and exit status, and the hook trace is checked by a model-free scope-chain invariant. Non-trivial = distinct program with >=1 shadowing declaration and >=1 read/assignment resolved at scope distance >=1 (counted by the model).",
+		Rule: "programs: every balanced history of length <=5 (quick) / <=6 (thorough) over 16 events {declare n = fresh, declare n, assign n, read n} x 2 colliding names + {open block, open for-header declaring the name, open for-header declaring both names in one declaration list, open function taking the name as parameter, close, call f}, each assigned value a unique integer; hand-written programs for every clause of the statement; seeded random larger programs (<=40 statements, depth <=3, names from a 3-name pool, closures, loops, planted faults). Each execution of the real interpreter (with scope hooks on) is compared with refborno's scope model on stdout, first diagnostic (category, name, line) and exit status, and the hook trace is checked by a model-free scope-chain invariant. Non-trivial = distinct program with >=1 shadowing declaration and >=1 read/assignment resolved at scope distance >=1 (counted by the model).",
 		Assumptions: []string{"declaring a name in a scope after a closure that mentions it was created beneath that scope is out of domain (the property's own exclusion), detected dynamically by the model", "redeclaring the function's own name or a parameter with ধরি at function-body level, and ফাংশন redeclaring an existing name in the same scope, are out of domain"},
 		Run:         c03Run,
 		Judge:       c03Judge,
@@ -401,6 +413,8 @@ func c03CertainFault(ev []int, names []string) bool {
 				if inFun == 0 && !hIsFn {
 					return true
 				}
+			case 7:
+				stack = append(stack, scope{"loop", map[string]bool{names[0]: true, names[1]: true}})
 			}
 		}
 	}
